@@ -826,6 +826,30 @@ class Idioms3(ast.NodeTransformer):
                     return ast.fix_missing_locations(ast.copy_location(
                         ast.BoolOp(op=ast.Or() if fn == "any" else ast.And(),
                                    values=vals), node))
+        # operator.attrgetter("a") -> lambda x: x.a ;
+        # operator.itemgetter(k) -> lambda x: x[k]
+        if fn in ("operator.attrgetter", "attrgetter") and len(
+                node.args) == 1 and not node.keywords and isinstance(
+                node.args[0], ast.Constant) and isinstance(
+                node.args[0].value, str) and all(
+                p_.isidentifier() for p_ in node.args[0].value.split(".")):
+            body = ast.Name(id="x", ctx=ast.Load())
+            for p_ in node.args[0].value.split("."):
+                body = ast.Attribute(value=body, attr=p_, ctx=ast.Load())
+            return ast.fix_missing_locations(ast.copy_location(ast.Lambda(
+                args=ast.arguments(posonlyargs=[], args=[ast.arg(arg="x")],
+                                   kwonlyargs=[], kw_defaults=[],
+                                   defaults=[]), body=body), node))
+        if fn in ("operator.itemgetter", "itemgetter") and len(
+                node.args) == 1 and not node.keywords and isinstance(
+                node.args[0], ast.Constant):
+            return ast.fix_missing_locations(ast.copy_location(ast.Lambda(
+                args=ast.arguments(posonlyargs=[], args=[ast.arg(arg="x")],
+                                   kwonlyargs=[], kw_defaults=[],
+                                   defaults=[]),
+                body=ast.Subscript(value=ast.Name(id="x", ctx=ast.Load()),
+                                   slice=node.args[0], ctx=ast.Load())),
+                node))
         # abs(<literal arithmetic>) -> the non-negative form
         if fn == "abs" and len(node.args) == 1 and not node.keywords:
             v = _closed_number(node.args[0])
